@@ -467,7 +467,13 @@ fn check_balance<'ctx>(
     if balance.is_zero() {
         return Ok(());
     }
-    if let Some((a1, a2)) = balance.maybe_pair() {
+    // Implied exchange: exactly two commodities remain, both non-zero with opposite signs.
+    let implied_exchange = balance.maybe_pair().filter(|(a1, a2)| {
+        !a1.value.is_zero()
+            && !a2.value.is_zero()
+            && a1.value.is_sign_positive() != a2.value.is_sign_positive()
+    });
+    if let Some((a1, a2)) = implied_exchange {
         // fill in converted amount.
         for p in postings.iter_mut() {
             let amount: Result<SingleAmount<'_>, _> = (&p.amount).try_into();
